@@ -16,6 +16,7 @@ type Clause struct {
 	E     Expr
 	Line  int
 	File  string
+	OnSuccess bool // "preserves": as a postcondition it is only required when the function returns a nil error (A1)
 }
 
 type LoopSpec struct {
@@ -49,11 +50,20 @@ type Contract struct {
 	File     string
 	Line     int
 	Uses     []string // lemma: names of earlier lemmas used as hypotheses
+	Witnesses []*Witness // existentially quantified ghost values of the postcondition
+}
+
+// Witness names a ghost value: the prover supplies it as an expression over the function's locals,
+// callers only learn that some value of the sort satisfies the postconditions.
+type Witness struct {
+	Name, Sort string
+	E    Expr
+	Src  string
 }
 
 var clauseKW = map[string]bool{"func": true, "lib": true, "lemma": true, "props": true, "theory": true, "requires": true, "ensures": true, "preserves": true,
 	"modifies": true, "loop": true, "returns": true, "inline": true, "noinline": true, "pure": true, "maypanic": true, "trusted": true,
-	"results": true, "fresh": true, "uses": true, "end": true}
+	"results": true, "fresh": true, "uses": true, "end": true, "witness": true}
 
 var labelRe = regexp.MustCompile(`^\s*(\[[A-Za-z0-9_, ]+\])?\s*([A-Za-z_][A-Za-z0-9_]*)\s*:([^:=].*|$)`)
 var tagOnlyRe = regexp.MustCompile(`^\s*\[([A-Za-z0-9_, ]+)\]\s*(.*)$`)
@@ -131,7 +141,9 @@ func parseContractFile(path, pkgPath string) ([]*Contract, error) {
 		case "func", "lib", "lemma":
 			cur = &Contract{Kind: r.kw, File: path, Line: r.line, Loops: map[string]*LoopSpec{}, Inline: map[string]bool{}, NoInline: map[string]bool{}}
 			name := r.text
-			if i := strings.Index(name, "("); r.kw != "func" && i > 0 && strings.HasSuffix(name, ")") && !strings.HasPrefix(name, "(") {
+			if strings.HasPrefix(name, "dynamic:") {
+				// call through a function value of this type: the whole text is the key
+			} else if i := strings.Index(name, "("); r.kw != "func" && i > 0 && strings.HasSuffix(name, ")") && !strings.HasPrefix(name, "(") {
 				// name(params)
 				ps := name[i+1 : len(name)-1]
 				name = name[:i]
@@ -178,6 +190,22 @@ func parseContractFile(path, pkgPath string) ([]*Contract, error) {
 			for _, n := range strings.Fields(strings.ReplaceAll(r.text, ",", " ")) {
 				cur.NoInline[n] = true
 			}
+		case "witness":
+			// witness name Sort := expr
+			i := strings.Index(r.text, ":=")
+			if i < 0 {
+				return nil, fmt.Errorf("%s:%d: malformed witness", path, r.line)
+			}
+			head := strings.TrimSpace(r.text[:i])
+			j := strings.IndexAny(head, " \t")
+			if j < 0 {
+				return nil, fmt.Errorf("%s:%d: witness needs a sort", path, r.line)
+			}
+			e, err := parseExpr(strings.TrimSpace(r.text[i+2:]))
+			if err != nil {
+				return nil, fmt.Errorf("%s:%d: %v", path, r.line, err)
+			}
+			cur.Witnesses = append(cur.Witnesses, &Witness{Name: head[:j], Sort: strings.TrimSpace(head[j:]), E: e, Src: r.text})
 		case "pure":
 			cur.Pure = true
 		case "maypanic":
@@ -199,6 +227,7 @@ func parseContractFile(path, pkgPath string) ([]*Contract, error) {
 				cur.Requires = append(cur.Requires, c)
 				c2 := *c
 				c2.Label = c.Label + "_kept"
+				c2.OnSuccess = true
 				cur.Ensures = append(cur.Ensures, &c2)
 			case "requires":
 				if c.Label == "" {
